@@ -247,6 +247,8 @@ def assert_purity_precheck(repo):
                     why.append("call of " + c)
             if why:
                 bad.append("%s:%d (%s)" % (os.path.relpath(f, repo), t.count("\n", 0, m.start()) + 1, ", ".join(why)))
+        for m in re.finditer(r"^[ \t]*#[ \t]*(?:if|ifdef|ifndef|elif)\b[^\n]*\bNDEBUG\b", t, re.M):
+            bad.append("%s:%d (code compiled only with or only without NDEBUG)" % (os.path.relpath(f, repo), t.count("\n", 0, m.start()) + 1))
     if bad:
         return "assert() with an argument that may change state (not on the list of pure accessors): %s" % "; ".join(bad[:8])
     return None
@@ -260,6 +262,7 @@ def c19_jobs(Job, tier):
         js.append(visit_job(Job, cfg))
         js += colstream_jobs(Job, cfg) + hfegeom_jobs(Job, cfg) + [j for j in space_jobs(Job, cfg) if "add_initial_gap" in j.name]
         js += [j for j in hfelut_jobs(Job, cfg) if "decode_header" in j.name]
+        js += trackcheck_jobs(Job, cfg)
         if cfg is CFG_ASSERT:
             # every other extracted function that contains an assert(): the same contracts, assertions compiled in
             js += [j for j in fileio_jobs(Job, cfg) if "presented_blockwise" in j.name or "blockwise" in j.name]
@@ -321,7 +324,7 @@ def opus_jobs(Job, cfg=CFG_NDEBUG, tier="quick"):
 
 
 def c17_extra(Job, tier):
-    return opus_jobs(Job) + fileio_jobs(Job)[1:4] + volctor_jobs(Job)
+    return opus_jobs(Job) + fileio_jobs(Job)[1:4] + volctor_jobs(Job) + mmb_jobs(Job)     # an MMB slot's view ends where the slot ends
 
 
 # ---- C01 extra: renderings (ostream event model) --------------------------------------------------------------
@@ -342,7 +345,7 @@ def listtype_jobs(Job, cfg=CFG_NDEBUG, tier="quick"):
 
 
 def c01_extra(Job, tier):
-    return render_jobs(Job) + listtype_jobs(Job) + [j for j in names_jobs(Job) if "has_name" in j.name]
+    return render_jobs(Job) + listtype_jobs(Job) + [j for j in names_jobs(Job) if "has_name" in j.name] + bodycmd_jobs(Job)
 
 
 # ---- C02 extra: the info line ------------------------------------------------------------------------------------
@@ -383,7 +386,7 @@ def c06_extra(Job, tier):
 
 
 def c07_extra(Job, tier):
-    return trackcheck_jobs(Job) + mmb_jobs(Job) + write_span_jobs(Job) + selector_jobs(Job) + [j for j in names_jobs(Job) if "less" in j.name] + [j for j in space_jobs(Job) if "start_sec" in j.name] + hfegeom_jobs(Job) + [j for j in fragment_jobs(Job) if "valid_" in j.name] + [j for j in gz_jobs(Job) if "inflate_loop" in j.name] + [j for j in opus_jobs(Job) if "opus_ctor_head" in j.name or "opus_volume_table" in j.name or "location_ctor" in j.name] + [j for j in hfelut_jobs(Job) if "read_track" in j.name or "decode_header" in j.name]
+    return trackcheck_jobs(Job) + mmb_jobs(Job) + write_span_jobs(Job) + selector_jobs(Job) + [j for j in names_jobs(Job) if "less" in j.name] + [j for j in space_jobs(Job) if "start_sec" in j.name] + hfegeom_jobs(Job) + showtitles_jobs(Job) + [j for j in adapter_jobs(Job) if "read_block" in j.name] + [j for j in fragment_jobs(Job) if "valid_" in j.name] + [j for j in gz_jobs(Job) if "inflate_loop" in j.name] + [j for j in opus_jobs(Job) if "opus_ctor_head" in j.name or "opus_volume_table" in j.name or "location_ctor" in j.name] + [j for j in hfelut_jobs(Job) if "read_track" in j.name or "decode_header" in j.name]
 
 
 # ---- destination directory / make_name (C12) ---------------------------------------------------------------------------
@@ -414,7 +417,8 @@ def main_tail_jobs(Job, cfg=CFG_NDEBUG, tier="quick"):
 
 
 def c11_jobs(Job, tier):            # noqa: F811
-    return write_span_jobs(Job) + listtype_jobs(Job)[1:2] + main_tail_jobs(Job) + extractwrite_jobs(Job) + inf_jobs(Job)
+    # spans_jobs: extract-unused as a whole fails when any of its spans could not be written
+    return write_span_jobs(Job) + listtype_jobs(Job)[1:2] + main_tail_jobs(Job) + extractwrite_jobs(Job) + inf_jobs(Job) + spans_jobs(Job)
 
 
 # ---- gzip reader (C10 ii) ----------------------------------------------------------------------------------------------
@@ -528,9 +532,12 @@ def viewfile_jobs(Job, cfg=CFG_NDEBUG, tier="quick"):
 
 
 def fsp_jobs(Job, cfg=CFG_NDEBUG, tier="quick"):
+    g = ["parse_dir_and_name", "fsp_drive_prefix"]
+    uw = ["--unwindset", "cstr_substr.0:17", "--unwinding-assertions"]
     return [Job("D_parse_dir_and_name_%s" % cfg[0], "harness/dfs_fsp.c", "h_parse_dir_and_name", enforce=["parse_dir_and_name"],
-                defines=list(cfg[1]), extract=ext(["parse_dir_and_name"]), tier=tier,
-                cbmc=["--unwindset", "cstr_substr.0:17", "--unwinding-assertions"])]
+                defines=list(cfg[1]), extract=ext(g), tier=tier, cbmc=uw),
+            Job("D_fsp_drive_prefix_%s" % cfg[0], "harness/dfs_fsp.c", "h_drive_prefix", enforce=["fsp_drive_prefix"],
+                defines=list(cfg[1]), extract=ext(g), tier=tier, cbmc=uw)]
 
 
 def c15_extra(Job, tier):
@@ -674,6 +681,16 @@ def mainopt_jobs(Job, cfg=CFG_NDEBUG, tier="quick"):
 def opussmell_jobs(Job, cfg=CFG_NDEBUG, tier="quick"):
     return [Job("D_smells_like_opus_ddos_%s" % cfg[0], "harness/dfs_opussmell.c", "h_opus_smell", enforce=["smells_like_opus_ddos"], replace=["sector_count"], loops=True,
                 defines=list(cfg[1]), extract=ext(["sector_count", "smells_like_opus_ddos"]), tier=tier, cover=True)]
+
+
+def bodycmd_jobs(Job, cfg=CFG_NDEBUG, tier="quick"):
+    return [Job("D_body_command_%s" % cfg[0], "harness/dfs_bodycmd.c", "h_body_command", enforce=["body_command"], defines=list(cfg[1]),
+                extract=ext(["body_command"]), tier=tier)]
+
+
+def showtitles_jobs(Job, cfg=CFG_NDEBUG, tier="quick"):
+    return [Job("D_show_titles_loop_%s" % cfg[0], "harness/dfs_showtitles.c", "h_show_titles", enforce=["show_titles_loop"], loops=True, defines=list(cfg[1]),
+                extract=ext(["show_titles_loop"]), tier=tier)]
 
 
 def prefix_jobs(Job, cfg=CFG_NDEBUG, tier="quick"):
